@@ -1,17 +1,18 @@
 #!/bin/bash
 # usage: seedcheck.sh <worktree> <demo-test-name>     (run in a scratch worktree prepared by a mutation agent)
 # Confirms: with the patch the existing suite passes and the demo fails; without it the demo passes.
+# (no `git stash`: the stash is shared between worktrees)
 WT="$1"; DEMO="$2"
 cd "$WT" || exit 2
 export CARGO_NET_OFFLINE=true
+P="$WT/_seed/patch.diff"
+git checkout -q -- src && git apply "$P" || { echo "patch does not apply"; exit 2; }
 echo "== with change: existing suite"
-git diff -- src > /tmp/seedcheck.$$.diff
 cargo test --offline --no-fail-fast 2>&1 | grep -E "^test result|^test .* FAILED|failed|Running" | grep -v "$DEMO" | tail -30
 echo "== with change: demo ($DEMO) (expected: FAIL)"
 cargo test --offline --test "$DEMO" 2>&1 | grep -E "^test |test result" | tail -12
 echo "== without change: demo (expected: pass)"
-git stash push -q -- src
+git apply -R "$P"
 cargo test --offline --test "$DEMO" 2>&1 | grep -E "^test |test result" | tail -12
-git stash pop -q
+git apply "$P"
 git diff --stat -- src
-rm -f /tmp/seedcheck.$$.diff
